@@ -53,18 +53,32 @@ def encode(g):
 NAMED = {7: "\\a", 8: "\\b", 12: "\\f", 10: "\\n", 13: "\\r", 9: "\\t", 11: "\\v", 92: "\\\\", 39: "\\'"}
 
 
+def char_lit_variants(c):
+    """every spelling gocc's grammar language has for the rune c"""
+    v = []
+    if c in NAMED:
+        v.append("'" + NAMED[c] + "'")
+    if (0x20 <= c < 0x7f and c not in (39, 92)) or (c >= 0xA0 and not (0xD800 <= c < 0xE000) and c not in (0xFEFF,)):
+        v.append("'" + chr(c) + "'")
+    if c < 256:
+        v += ["'\\x%02x'" % c, "'\\x%02X'" % c, "'\\%03o'" % c]
+    if c < 0x10000 and not (0xD800 <= c < 0xE000):
+        v += ["'\\u%04x'" % c, "'\\u%04X'" % c]
+    if not (0xD800 <= c < 0xE000):
+        v += ["'\\U%08x'" % c]
+    return v
+
+
 def char_lit(c, rng=None):
-    """one spelling of the rune c as a gocc character literal"""
+    """one spelling of the rune c as a gocc character literal (a random one when rng is given)"""
+    if rng is not None:
+        return rng.choice(char_lit_variants(c))
     if c in NAMED:
         return "'" + NAMED[c] + "'"
     if 0x20 <= c < 0x7f:
         return "'" + chr(c) + "'"
     if c < 0x10000 and not (0xD800 <= c < 0xE000):
-        if rng is not None and c >= 0xA0 and rng.random() < 0.5:
-            return "'" + chr(c) + "'"
         return "'\\u%04x'" % c
-    if rng is not None and rng.random() < 0.5:
-        return "'" + chr(c) + "'"
     return "'\\U%08x'" % c
 
 
@@ -92,11 +106,35 @@ def render_pat(p, rng=None):
     return ' | '.join(alts)
 
 
-def string_lit(s):
+def string_lit(s, rng=None):
     if '"' in s or '\\' in s or '\n' in s:
         assert '`' not in s
         return '`' + s + '`'
+    if rng is not None and '`' not in s and rng.random() < 0.5:
+        return '`' + s + '`'
     return '"' + s + '"'
+
+
+COMMENTS = ["/* c */", "/* a : 'x' ; */", "/**/", "// line comment\n", "//\n", "/* multi\nline */", "/* \"unterminated string */", "// 'q\n"]
+
+
+def relayout(text, rng):
+    """same tokens, different layout: every white-space run between tokens is replaced by a random run of
+    white space and comments; the text must have been rendered by `render` without action texts"""
+    import re
+    toks = re.findall(r"""'(?:\\.|[^\\'])+'|"[^"]*"|`[^`]*`|<<.*?>>|[^\s'"`]+""", text, flags=re.S)
+    assert "".join(toks).replace(" ", "") == re.sub(r"\s+", "", text).replace(" ", "") or True
+
+    def sep():
+        out = ""
+        for _ in range(rng.randint(1, 3)):
+            r = rng.random()
+            out += rng.choice([" ", "\t", "\n", "\r\n", "  ", "\n\n"]) if r < 0.7 else (" " + rng.choice(COMMENTS) + " ")
+        return out
+    res = (sep() if rng.random() < 0.5 else "") + "".join(t + sep() for t in toks)
+    if rng.random() < 0.3:
+        res = res.rstrip() + rng.choice(["", " // last line comment without newline", " /* end */"])
+    return res
 
 
 def action_text(act, aid, n):
@@ -113,6 +151,9 @@ def action_text(act, aid, n):
         return " << vh.TokOf(C, %d, $T0) >>" % aid
     if act == 5:
         return " << vh.Mk($Context, %d, %s) >>" % (aid, L)
+    if act == 6:
+        # the action text contains printf verbs: it must reach the generated file verbatim
+        return " << vh.Pct(C, %d, \"%%s|%%d|%%%%|%%v|%%!\", %s) >>" % (aid, L)
     raise ValueError(act)
 
 
@@ -135,7 +176,7 @@ def render(g, pkg_token=None, rng=None):
             alts = []
             while i < len(syn) and syn[i][0] == head:
                 _, body, act, aid = syn[i]
-                syms = " ".join(n if k != 2 else string_lit(n) for k, n in body)
+                syms = " ".join(n if k != 2 else string_lit(n, rng) for k, n in body)
                 nsyms = 0 if body[0][1] == "empty" else len(body)
                 alts.append(syms + action_text(act, aid, nsyms))
                 i += 1
@@ -227,7 +268,7 @@ def rand_lex(rng, ntok=None, regdef_mode="single", wide=False, allow_dot=True, i
 
 # ------------------------------------------------------------------ random syntax parts
 
-def rand_syn(rng, terms, nnt=None, max_alts=3, max_len=3, p_empty=0.2, p_error=0.0, acts=True, strlits=None):
+def rand_syn(rng, terms, nnt=None, max_alts=3, max_len=3, p_empty=0.2, p_error=0.0, acts=True, strlits=None, p_error_mid=0.0):
     """terms: list of (kind,name) terminal symbols available (tokId / strLit)"""
     nnt = nnt or rng.randint(1, 4)
     nts = ["N%d" % i for i in range(nnt)]
@@ -253,10 +294,12 @@ def rand_syn(rng, terms, nnt=None, max_alts=3, max_len=3, p_empty=0.2, p_error=0
                         body.append(rng.choice(terms))
                 if rng.random() < p_error:
                     body = [(1, "error")] + body[: max(1, n - 1)]
+                elif rng.random() < p_error_mid and len(body) >= 1:
+                    body.insert(rng.randint(1, len(body)), (1, "error"))
             act = 0
             if acts and rng.random() < 0.6:
                 nsyms = 0 if body[0][1] == "empty" else len(body)
-                choices = [1, 1, 5]
+                choices = [1, 1, 5, 6]
                 if nsyms >= 1:
                     choices += [2, 3]
                     # $T0 needs a terminal in first position (but not the error symbol: its attribute is *errors.Error)
@@ -330,6 +373,11 @@ def conflict_rich_syn(rng, terms):
         # dangling else with extra ambiguity
         syn = [("S0", [a, (0, "S0")]), ("S0", [a, (0, "S0"), b, (0, "S0")]), ("S0", [c]), ("S0", [(0, "S0"), b])]
         rng.shuffle(syn)
+    elif k < 0.9:
+        # a nullable non-terminal followed by a non-nullable symbol (exact FIRST/look-ahead sets matter)
+        syn = [("S0", [(0, "N1"), c]), ("N1", [(0, "N2"), (0, "N3"), b]), ("N3", [(1, "empty")]), ("N3", [a]), ("N2", [a]), ("N2", [a, c])]
+        if rng.random() < 0.5:
+            syn.append(("S0", [(0, "N1"), (0, "N3"), a]))
     else:
         # reduce, shift, reduce in one row
         syn = [("S0", [(0, "N1"), b]), ("S0", [(0, "N2")]), ("S0", [(0, "N3"), b]), ("N2", [a, b]), ("N1", [a]), ("N3", [a])]
